@@ -149,6 +149,10 @@ def SysAllowed : List SysOp → Prop
   | [] => True
   | op :: earlier => SysAllowed earlier ∧ SysStepAllowed (Sys.runRev earlier) op
 
+theorem sysAllowed_append : ∀ (sched ops : List SysOp), SysAllowed (sched ++ ops) → SysAllowed ops
+  | [], _, h => h
+  | _ :: sched, ops, h => sysAllowed_append sched ops h.1
+
 theorem allowedRev_rev_append (a b : List Gossip.Op) (hb : AllowedRev b)
     (ha : ∀ op ∈ a, ∀ g, StepAllowed g op) : AllowedRev (a.reverse ++ b) := by
   induction a generalizing b with
